@@ -462,7 +462,9 @@ def main(tier, seed):
               f"join/split/lines/words inverses on generated lists; "
               f"interpolation: {len(VALUES)} values x {len(FMTS)} formats x "
               f"chunk pairs through s(), sprintf with every permutation of "
-              f"<= 3 argument positions x 4 formats"),
+              f"<= 3 argument positions x 4 formats; case mapping of "
+              f"{len(case_characters())} single letters (Latin-1, Latin "
+              f"Extended, Greek, Cyrillic, special casing)"),
         exhaustive=True,
         assumptions=["regular-expression separators other than literal "
                      "separators through escape_pattern are out of scope",
